@@ -502,6 +502,15 @@ class CodeGenerator(NodeVisitor):
             for k in chain((x.key for x in node.kwargs), extra_kwargs or ())
         )
 
+        if extra_kwargs:
+            for kwarg in node.kwargs:
+                if kwarg.key in extra_kwargs:
+                    self.fail(
+                        f"keyword argument {kwarg.key!r} is passed by the"
+                        " template engine here and can't be given",
+                        node.lineno,
+                    )
+
         for arg in node.args:
             self.write(", ")
             self.visit(arg, frame)
